@@ -10,12 +10,12 @@ from vt.core import Checker, lib, dense, dense_abs, DT, UNIT, fro
 RULE = ("Hypothesis draws y = c + z*z (c in {1,0.5,3}, z a Gaussian TT of ranks 1-2 rescaled to max|z| in {0.3,1,2}, so "
         "all entries of y lie in [c, c+4]), x a Gaussian TT of ranks 1-4, order 2-5, modes 1-10, and a form: x/y, s/y "
         "(s int, float, 0-d or one-element tensor), elementwise_divide(x,y,eps, preconditioner None/'c', starting "
-        "tensor None/random, kick) with eps log-uniform in [1e-11,1e-3], elementwise_divide(scalar,y), and x/s. The seed "
+        "tensor None/random/one of the operands themselves, kick) with eps log-uniform in [1e-11,1e-3], elementwise_divide(scalar,y), and x/s. The seed "
         "of the internal randomness is drawn. Oracle: q has the shape of y and ||dense(q)*dense(y) - dense(x)|| <= "
         "5 tol ||x|| (tol = eps, or 1e-12 for the operators) + roundoff; x/s exact/roundoff. Non-trivial: y has a rank>1 "
         "and some mode>=3.")
 BUDGET = {"quick": 1200, "thorough": 48000}
-FLOORS = {"quick": {"form:x/y": 100, "form:s/y": 100, "form:ediv": 200, "prec:c": 80, "starting_tensor": 80, "form:x/s": 60}}
+FLOORS = {"quick": {"form:x/y": 100, "form:s/y": 100, "form:ediv": 200, "prec:c": 80, "starting_tensor": 80, "starting_tensor_is_operand": 25, "form:x/s": 60}}
 SHRINK = {"quick": False, "thorough": True}
 ASSUMPTIONS = ["y is assembled with the library's own + and * (C03 checks those); the oracle uses the dense value of the "
                "cores actually passed", "torch.manual_seed(lib_seed) pins the internal randomness"]
@@ -50,6 +50,8 @@ def strategy_case(draw):
         case["kick"] = draw(st.sampled_from([4, 4, 2]))
         if draw(st.floats(0, 1)) < 0.3:
             case["start_R"] = draw(gen.ranks(d, 3))
+            # the initial guess may be a fresh tensor or one of the operands themselves (numerator as a cheap first guess)
+            case["start_kind"] = draw(st.sampled_from(["random", "random", "x", "y"]))
     return case
 
 
@@ -108,6 +110,9 @@ def execute(case):
         if "start_R" in case:
             ck.label("starting_tensor")
             kw["starting_tensor"] = T.TT(core.make_cores({"N": N, "R": case["start_R"], "dt": "f64", "mode": "gauss", "seed": case["seed"] + 2}))
+            if form == "ediv" and case.get("start_kind", "random") != "random":
+                kw["starting_tensor"] = x if case["start_kind"] == "x" else y
+                ck.label("starting_tensor_is_operand")
         if form == "ediv":
             q = lib(lambda: T.elementwise_divide(x, y, **kw))
             num = xd
